@@ -99,7 +99,11 @@ DoRestore ==
                  /\ ObsOf(Line.st) = ob                       \* building the copy did not disturb the original (purity)
                  /\ RestoredOk(ob, Line.price2, ObsOf(Line.st2), <<>>)
                  /\ ApiOk(Line.st2) /\ ListOk(Line.st2)
-     IN /\ sum' = AddFails([sum EXCEPT !.restores = @ + 1], IF good THEN {} ELSE {Fail("C10", l)})
+     IN /\ sum' = AddFails([sum EXCEPT !.restores = @ + 1],
+                           IF good THEN {}
+                           \* a copy whose book differs is not equivalent either: listing it is already a
+                           \* continuation with a different result (C11)
+                           ELSE {Fail("C10", l)} \cup (IF Line.k = "fork" THEN {Fail("C11", l)} ELSE {}))
         /\ IF Line.k = "fork" /\ Line.ok
            THEN LET o2 == ObsOf(Line.st2) IN
                 ob2' = o2 /\ fk' = [on |-> TRUE, good |-> good, sameOrder |-> ForkFlags(ob, o2).sameOrder, noStale |-> ForkFlags(ob, o2).noStale]
